@@ -7,6 +7,7 @@ import (
 	"regexp"
 	"runtime/debug"
 	"strconv"
+	"sync/atomic"
 	"time"
 
 	bleve "github.com/blevesearch/bleve/v2"
@@ -105,6 +106,9 @@ func put(m map[string]interface{}, key string, ts []int, variant int) {
 // kept as empty arrays (variant even) or left out (variant odd).
 func ToJSONDoc(d Doc, n Naming, variant int) map[string]interface{} {
 	m := map[string]interface{}{}
+	// every fifth variant hands the array elements over as POINTERS to the element
+	// objects (documents built from Go values often hold []*Item)
+	ptrElems := variant%5 == 4
 	put(m, "t", d.T, variant)
 	if len(d.A) > 0 || variant%2 == 0 {
 		as := make([]interface{}, 0, len(d.A))
@@ -118,9 +122,17 @@ func ToJSONDoc(d Doc, n Naming, variant int) map[string]interface{} {
 					cm := map[string]interface{}{}
 					put(cm, "u", c.U, variant+j)
 					put(cm, "v", c.V, variant+j+1)
-					cs = append(cs, cm)
+					if ptrElems {
+						cs = append(cs, &cm)
+					} else {
+						cs = append(cs, cm)
+					}
 				}
 				am[n.C] = cs
+			}
+			if ptrElems {
+				as = append(as, &am)
+				continue
 			}
 			as = append(as, am)
 		}
@@ -132,6 +144,10 @@ func ToJSONDoc(d Doc, n Naming, variant int) map[string]interface{} {
 			bm := map[string]interface{}{}
 			put(bm, "z", b.Z, variant+k)
 			put(bm, "w", b.W, variant+k+1)
+			if ptrElems {
+				bs = append(bs, &bm)
+				continue
+			}
 			bs = append(bs, bm)
 		}
 		m[n.B] = bs
@@ -178,13 +194,14 @@ func ToBleveQuery(q Query, n Naming) query.Query {
 // ---- a real scorch index on disk
 
 type Real struct {
-	Idx    bleve.Index
-	Kind   Kind
-	Names  Naming
-	Dir    string
-	sc     *scorch.Scorch
-	nbatch int
-	nmerge int
+	Idx     bleve.Index
+	Kind    Kind
+	Names   Naming
+	Dir     string
+	sc      *scorch.Scorch
+	nbatch  int
+	nmerge  int
+	nSearch int64
 }
 
 func OpenReal(dir string, k Kind, n Naming) (*Real, error) {
@@ -294,6 +311,9 @@ func (r *Real) Search(q Query, size int) (obs Observed) {
 			obs = Observed{Err: fmt.Sprintf("panic: %v | %s", p, firstFrames(string(debug.Stack())))}
 		}
 	}()
+	if atomic.AddInt64(&r.nSearch, 1)%3 == 0 {
+		return r.searchPaged(q, size)
+	}
 	req := bleve.NewSearchRequestOptions(ToBleveQuery(q, r.Names), size, 0, false)
 	res, err := r.Idx.Search(req)
 	if err != nil {
@@ -308,6 +328,41 @@ func (r *Real) Search(q Query, size int) (obs Observed) {
 		obs.Hits = append(obs.Hits, hit)
 	}
 	return obs
+}
+
+// searchPaged collects the same answer page by page: sorted by _id, two hits per
+// page, every next page requested with SearchAfter. Hits and Total must not
+// depend on how the result is paged.
+func (r *Real) searchPaged(q Query, size int) (obs Observed) {
+	var after []string
+	for page := 0; page <= size+2; page++ {
+		req := bleve.NewSearchRequestOptions(ToBleveQuery(q, r.Names), 2, 0, false)
+		req.SortBy([]string{"_id"})
+		if after != nil {
+			req.SetSearchAfter(after)
+		}
+		res, err := r.Idx.Search(req)
+		if err != nil {
+			return Observed{Err: "error: " + err.Error()}
+		}
+		if page == 0 {
+			obs.Total = int(res.Total)
+		} else if int(res.Total) != obs.Total {
+			return Observed{Err: fmt.Sprintf("Total changes between pages: %d on the first page, %d on page %d (SearchAfter %v)", obs.Total, res.Total, page+1, after)}
+		}
+		if len(res.Hits) == 0 {
+			return obs
+		}
+		for _, h := range res.Hits {
+			hit, ok := ParseHitID(h.ID)
+			if !ok {
+				return Observed{Err: "unparsable hit id " + strconv.Quote(h.ID)}
+			}
+			obs.Hits = append(obs.Hits, hit)
+		}
+		after = []string{res.Hits[len(res.Hits)-1].ID}
+	}
+	return Observed{Err: "paging with SearchAfter does not end"}
 }
 
 var reFrame = regexp.MustCompile(`(?m)^github\.com/blevesearch/bleve/v2[^\n]*\n\t[^\n]*`)
